@@ -27,7 +27,10 @@ def main():
             "caught (no-failing-input-found)" if "VIOLATION" in res else "MISSED: " + res[:80])
         if m.get("strengthened"):
             verdict += "; " + m["strengthened"]
+        if m.get("judged"):
+            verdict = "silent, deliberately: " + m["judged"]
         cell = lambda s: str(s).replace("|", "\\|").replace("\n", " ")[:300]
+        verdict = verdict.replace("|", "\\|")
         text += f"| {os.path.basename(d)} | {cell(m.get('summary',''))} | {cell(m.get('needs_to_manifest',''))} | {verdict} |\n"
     text += "\n## 10a. Harmless changes (the property still holds) and what the checks said\n\n"
     text += ("Written by sub-agents that saw only the property text and were asked for realistic refactorings / changes of "
